@@ -71,6 +71,12 @@ def instances(pid, n=30):
                 lines = [text(rng, WILD, 0, 20) for _ in range(rng.randint(1, 4))]
                 lines = [l for l in lines if l != '``'] or ['y']
                 out.append(('``\n' + '\n'.join(lines) + '\n``', 0, '<pre><code>%s</code></pre>' % esc('\n'.join(lines)), 'theorem-instance:C08_fenced_code_block'))
+        elif pid == 'C17':     # C17_escaped_emphasis_is_literal, in a paragraph
+            pre, body, post = first_then(rng, 0, 10), solid(rng, SAFE, 1, 12), text(rng, SAFE, 0, 10)
+            src = pre + '\\*' + body + '*' + post
+            if src.rstrip() != src:
+                src = src.rstrip() + ','
+            out.append((src, '<p>%s</p>' % esc(src.replace('\\*', '*', 1)), 'theorem-instance:C17_escaped_emphasis_is_literal'))
         elif pid == 'C11':     # C11_invocation_equals_substitution, on a document
             name = rng.choice(LETTERS) + text(rng, LETTERS + '0123456789-', 0, 6)
             value = solid(rng, SAFE.replace('{', '').replace('}', ''), 1, 12).replace("'", '')
